@@ -108,6 +108,12 @@ pub enum WireOp {
     Garbage { bytes: Vec<u8>, pipe_seed: u64 },
     /// a valid frame with some bytes changed
     Mutate { msg: Msg, flips: Vec<(u64, u8)>, pipe_seed: u64 },
+    /// structure-aware damage: bytes inside the body replaced by invalid UTF-8 lead/continuation
+    /// bytes, the body optionally cut short, and the length prefix recomputed so that the frame
+    /// reader accepts the frame and the decoder sees the damage
+    Mangle { msg: Msg, bad: Vec<(u64, u8)>, cut: Option<u64>, pipe_seed: u64 },
+    /// a message whose encoding is exactly `delta` bytes away from MAX_MESSAGE_SIZE
+    Boundary { delta: i64, pipe_seed: u64 },
 }
 
 #[derive(Clone, Debug, Serialize, Deserialize)]
@@ -250,6 +256,26 @@ pub fn gen_case(verif_seed: u64, idx: u64) -> WireReplay {
                 }
                 WireOp::Garbage { bytes, pipe_seed: ps }
             }
+            8 if rng.chance(4) => WireOp::Boundary { delta: *rng.pick(&[0i64, -1, 1, -2]), pipe_seed: ps },
+            8 => {
+                let nb = rng.range(0, 4);
+                // the Rows response is the only message with several strings: damage it most often
+                let mut m = gen_msg(&mut rng);
+                if rng.chance(70) {
+                    for _ in 0..20 {
+                        if matches!(&m, Msg::Resp(v, _, d, _) if v == "Rows" && !d.is_empty()) {
+                            break;
+                        }
+                        m = gen_msg(&mut rng);
+                    }
+                }
+                WireOp::Mangle {
+                    msg: m,
+                    bad: (0..nb).map(|_| (rng.next(), *rng.pick(&[0xFFu8, 0x80, 0xC0, 0xE2, 0xF0, 0xBF]))).collect(),
+                    cut: if rng.chance(60) { Some(rng.next()) } else { None },
+                    pipe_seed: ps,
+                }
+            }
             _ => {
                 let nfl = rng.range(1, 4);
                 WireOp::Mutate { msg: gen_msg(&mut rng), flips: (0..nfl).map(|_| (rng.next(), rng.below(256) as u8)).collect(), pipe_seed: ps }
@@ -380,6 +406,70 @@ pub fn run_case(case: &WireReplay, idx: u64) -> RunResult {
                 let _ = Response::from_bytes(bytes).map(|_| ());
                 util::fnv(&mut fp, b"gb");
             }
+            WireOp::Boundary { delta, pipe_seed } => {
+                // Request::Sql encodes as version + command + u32 length + text
+                let n = (tcp::MAX_MESSAGE_SIZE as i64 + delta - 6) as usize;
+                let req = Request::Sql("q".repeat(n));
+                let mut pipe = SimPipe::new(*pipe_seed, 0, 0);
+                bump("boundary_size_messages", 1);
+                match tcp::send_request(&mut pipe, &req) {
+                    Err(e) => {
+                        if *delta <= 0 {
+                            viol = Some(Violation { oracle: "O-wire".into(), event: i, detail: format!("a message of MAX_MESSAGE_SIZE{delta:+} bytes was refused by the sender: {e}") });
+                            break 'ops;
+                        }
+                        bump("oversize_refused_by_sender", 1);
+                    }
+                    Ok(()) => {
+                        if *delta > 0 {
+                            viol = Some(Violation { oracle: "O-wire".into(), event: i, detail: format!("a message of MAX_MESSAGE_SIZE{delta:+} bytes was sent") });
+                            break 'ops;
+                        }
+                        match tcp::recv_request(&mut pipe) {
+                            Ok(Request::Sql(t)) if t.len() == n => {}
+                            Ok(_) => {
+                                viol = Some(Violation { oracle: "O-wire".into(), event: i, detail: format!("a message of MAX_MESSAGE_SIZE{delta:+} bytes was received altered") });
+                                break 'ops;
+                            }
+                            Err(e) => {
+                                viol = Some(Violation { oracle: "O-wire".into(), event: i, detail: format!("a message of MAX_MESSAGE_SIZE{delta:+} bytes was sent but the receiver refused it: {e}") });
+                                break 'ops;
+                            }
+                        }
+                    }
+                }
+                util::fnv(&mut fp, format!("bd {delta}").as_bytes());
+            }
+            WireOp::Mangle { msg, bad, cut, pipe_seed } => {
+                let bytes = encode(msg);
+                let mut body = bytes[4..].to_vec();
+                for (pos, val) in bad {
+                    if body.len() > 2 {
+                        let p = 2 + (*pos as usize) % (body.len() - 2);
+                        body[p] = *val;
+                    }
+                }
+                if let Some(c) = cut {
+                    if body.len() > 2 {
+                        let keep = 2 + (*c as usize) % (body.len() - 2);
+                        body.truncate(keep);
+                    }
+                }
+                let mut frame = (body.len() as u32).to_le_bytes().to_vec();
+                frame.extend_from_slice(&body);
+                bump("mangled_frames", 1);
+                let mut pipe = SimPipe::new(*pipe_seed, 0, 2);
+                pipe.buf.extend(frame.iter());
+                let r = match msg {
+                    Msg::Req(..) => tcp::recv_request(&mut pipe).map(|m| canon_req(&m)),
+                    Msg::Resp(..) => tcp::recv_response(&mut pipe).map(|m| canon_resp(&m)),
+                };
+                match r {
+                    Err(e) => bump(&format!("mangle_error_{}", err_class(&e)), 1),
+                    Ok(_) => bump("mangled_still_decodes", 1),
+                }
+                util::fnv(&mut fp, b"mg");
+            }
             WireOp::Mutate { msg, flips, pipe_seed } => {
                 let mut bytes = encode(msg);
                 for (pos, val) in flips {
@@ -429,6 +519,8 @@ pub fn sample_of(case: &WireReplay) -> serde_json::Value {
             WireOp::Truncate { keep_permille, .. } => format!("truncate a frame at {keep_permille} permille, then EOF"),
             WireOp::Garbage { bytes, .. } => format!("garbage stream of {} bytes", bytes.len()),
             WireOp::Mutate { flips, .. } => format!("valid frame with {} bytes changed", flips.len()),
+            WireOp::Mangle { bad, cut, .. } => format!("valid frame with {} invalid-UTF-8 bytes planted{}, length prefix recomputed", bad.len(), if cut.is_some() { " and the body cut short" } else { "" }),
+            WireOp::Boundary { delta, .. } => format!("message of MAX_MESSAGE_SIZE{delta:+} bytes"),
         })
         .collect();
     serde_json::json!({"seed": case.seed, "ops": d})
